@@ -195,16 +195,23 @@ def run_sim(case, which):
     im = sim._randomness._key_mapping
     log = []
     ic.instrument(im, log)
-    sim.initialize_simulants()
-    for _ in range(case["steps"]):
-        sim.step()
+    crash = None
+    try:
+        sim.initialize_simulants()
+        for _ in range(case["steps"]):
+            sim.step()
+    except Exception as e:  # noqa: BLE001 - a crash of the simulation is an observation
+        crash = ic.outcome_of(e)
     types = log[0]["types"] if log else []
     hist = {"size": len(im), "cols": types, "tunit": "ns", "batches": [x["batch"] for x in log]}
-    return {"hist": hist, "batches": [x["rec"] for x in log], "draws": {str(k): v for k, v in p.draws.items()}}
+    return {"hist": hist, "batches": [x["rec"] for x in log], "draws": {str(k): v for k, v in p.draws.items()}, "crash": crash}
 
 
 def oracle_sims(obs):
     A, B = obs["a"], obs["b"]
+    for side in (A, B):
+        if side.get("crash"):
+            return [{"sig": "simulation-crashed", "msg": f"a simulation with unique keys stopped with {side['crash']}"}], 0, 0
     if A["hist"]["size"] != B["hist"]["size"]:
         return [{"sig": "harness-pair-size", "msg": "the two simulations ended up with different block sizes"}], 0, 0
     fails, n_shared, n_free = oracle_pair(A["hist"], A["batches"], B["hist"], B["batches"])
